@@ -2,6 +2,7 @@
 import ast
 
 from vk import fabio, pools, rules, formulas, wiring
+from vk import replicate
 from vk.fabio import Num, N, D, Roles, Ratio, ArrV
 from vk.formulas import A
 from vk.model import norm, loc, AnalysisError, walk_no_nested, parents
@@ -235,11 +236,8 @@ def run(ctx):
               "--variable and --volfrac reach volume_integral", f"volume_integral is called with {b2}", key="options")
     # the covering mask is expanded by block replication (np.repeat along every axis): same rule as C10.EXPAND
     ex = prog.func("amr_kitchen/utils.py", "expand_array3d", P)
-    r = [norm(n.value) for n in walk_no_nested(ex.node) if isinstance(n, ast.Return)]
-    ctx.check(r == ["np.repeat(np.repeat(np.repeat(arr, factor, axis=0), factor, axis=1), factor, axis=2)"], f"{P}.EXPAND",
-              ex.site, "expand_array3d repeats every axis by factor (block replication, values and block edges exact)",
-              f"expand_array3d returns {r}: the occupancy block of a coarse cell must cover exactly `factor` fine cells "
-              f"along every axis (np.repeat); resampling (zoom) moves block edges", semantic=False)
+    replicate.rule(ctx, f"{P}.EXPAND", ex, 3, "expand_array3d repeats every axis by factor (block replication: the "
+                   "occupancy block of a coarse cell covers exactly `factor` fine cells along every axis)")
     ctx.assume("box boundaries lie on an even blocking factor (bcast_factor = rez // 2); levels are properly nested")
     ctx.assume("the rest of the occupancy arithmetic ((idx*2)//factors, expand) is decided only as far as the "
                "LEVEL-COH and DIV-ALL rules; the numeric sum is not decided")
